@@ -18,6 +18,7 @@ pub mod c01;
 pub mod c04;
 pub mod c06;
 pub mod c08;
+pub mod c09;
 
 pub fn all() -> Vec<Scenario> {
     let mut v = vec![];
@@ -25,5 +26,6 @@ pub fn all() -> Vec<Scenario> {
     c04::register(&mut v);
     c06::register(&mut v);
     c08::register(&mut v);
+    c09::register(&mut v);
     v
 }
